@@ -23,6 +23,8 @@ int main(int argc, char** argv)
 {
 	std::string cmd = argc > 1 ? argv[1] : "";
 	if (cmd == "day") return check_day(atol(argv[2]));
+	if (cmd == "instant") { long day = atol(argv[2]), sec = atol(argv[3]); DateData u = Date(double(day) * 86400.0 + double(sec)).splitUTC(); int wd = int(((day + 4) % 7 + 7) % 7);
+		if (u.weekDay != wd) { printf("REPRODUCED day %ld second %ld: weekDay %d, calendar says %d\n", day, sec, u.weekDay, wd); return 1; } printf("OK\n"); return 0; }
 	if (cmd == "year") { long y = atol(argv[2]); return check_day(dfy(y)) || check_day(dfy(y + 1) - 1) || check_day(dfy(y) + 59) || check_day(dfy(y) + 60); }
 	if (cmd == "fields") { long y = atol(argv[2]); int m = atoi(argv[3]), d = atoi(argv[4]); Date c(Date::UTC, (int)y, m, d, 0, 0, 0); double want = double(dfy(y) + cum[leap(y)][m] + d - 1) * 86400.0;
 		if (c.time() != want) { printf("REPRODUCED construct(%ld,%d,%d) = %.1f want %.1f\n", y, m, d, c.time(), want); return 1; } printf("OK\n"); return 0; }
